@@ -116,8 +116,17 @@ def call_pool(rng, n_per_kind):
     for name, fmt in (("water_sto3g_hf.wfx", "wfx"), ("h2o_sto3g.fchk", "fchk"), ("h2o_sto3g.wfn", "wfn"), ("nh3_molden_cart.molden", "molden"),
                       ("water.xyz", "xyz"), ("water_single.pdb", "pdb"), ("li_sp_virtual_norm1.mkl", "molekel")):
         if os.path.exists(os.path.join(data, name)):
-            for mode in ("head", "drop"):
+            for mode in ("head", "drop", "stars"):
                 calls.append({"kind": "load_damaged", "path": os.path.join(data, name), "fmt": fmt, "mode": mode})
+    # ... and one file of every other format, damaged in the middle of a line (a Fortran overflow field `*****`): a reader that
+    # keeps a token buffer or a counter between calls shows it in the next load
+    have = {c["fmt"] for c in calls if c["kind"] == "load_damaged"}
+    for p, fmt, _ in files:
+        if fmt in have or os.path.getsize(p) > 300000:
+            continue
+        have.add(fmt)
+        for mode in ("stars", "head"):
+            calls.append({"kind": "load_damaged", "path": p, "fmt": fmt, "mode": mode})
     calls.append({"kind": "load_one", "path": os.path.join(data, "water.xyz"), "fmt": "fchk"})       # fails: wrong format
     calls.append({"kind": "load_one", "path": os.path.join(data, "water.xyz"), "fmt": "nonexistent"})  # fails: unknown format
     calls.append({"kind": "load_many", "path": os.path.join(data, "water.mol2"), "fmt": "cube"})     # fails: unsupported
@@ -141,6 +150,14 @@ def run_call(c, tmp):
                 lines = open(c["path"]).read().splitlines(keepends=True)
                 if c["mode"] == "head":
                     lines = lines[: max(2, (6 * len(lines)) // 10)]
+                elif c["mode"] == "stars":
+                    import re
+                    # the first number with a decimal point on a line with several of them, two thirds into the file
+                    for i in range((2 * len(lines)) // 3, len(lines)):
+                        toks = re.findall(r"-?\d+\.\d+(?:[EeDd][-+]?\d+)?", lines[i])
+                        if len(toks) >= 2:
+                            lines[i] = lines[i].replace(toks[0], "*" * len(toks[0]), 1)
+                            break
                 elif c["fmt"] == "wfx":
                     i0 = next(i for i, ln in enumerate(lines) if ln.strip() == "<Number of Electrons>")
                     del lines[i0:i0 + 3]            # a mandatory section is missing
